@@ -5,6 +5,7 @@ import (
 	"context"
 	"fmt"
 	"io"
+	"strings"
 	"sync"
 	"testing"
 	"time"
@@ -526,13 +527,13 @@ func TestC01(t *testing.T) {
 	if lib.Thorough() {
 		cases = append(cases, c01big()...)
 	}
-	rep.Rule = "exhaustive product: leaf size x content length (every length 0..3L+1 at L=64 in thorough; boundary lengths otherwise) x content pattern x source chunking (every chunk size 1..2L+1, one single write, 32KiB writes) x flush concurrency; per stored object the full read battery (Read with every buffer size, ReadAt at every offset x 7 lengths x prefetch/cache settings, WriteTo to Writer and WriterAt, io.Copy, mixed styles); distinct = distinct (L, n, pattern) objects; evaluations = Put calls + individual read calls"
+	rep.Rule = "exhaustive product: leaf size x content length (every length 0..3L+1 at L=64 in thorough; boundary lengths otherwise) x content pattern x source chunking (every chunk size 1..2L+1, one single write, 32KiB writes) x flush concurrency; per stored object the full read battery (Read with every buffer size, ReadAt at every offset x 7 lengths x prefetch/cache settings, WriteTo to Writer and WriterAt, io.Copy, mixed styles); plus, at L=64, a second Put of the content into a store that already holds a damaged copy (emptied; with a CRC-reporting backend also cut short / altered) of each one of its blobs: acknowledged only if it then reads back exactly; distinct = distinct (L, n, pattern) objects; evaluations = Put calls + individual read calls"
 	rep.Assume("reference store = in-memory map with GCS-like contract (harness/lib/memstore.go); blobs are delivered in >=2 Read calls followed by a separate (0,EOF)")
 	parent := lib.RunCases(t, rep, "TestC01", len(cases), 0, 60*time.Second, func(i int) { c01run(rep, cases[i]) },
 		func(i int, how, output string) {
 			c := cases[i]
 			kind := "hang"
-			if how != "hang" {
+			if !strings.HasPrefix(how, "hang") {
 				kind = "fatal"
 			}
 			rep.Violate(fmt.Sprintf("C01|%s|%s", kind, lenClass(c.N, c.L)), fmt.Sprintf("worker %s while running case L=%d n=%d pattern=%s chunkings=%v: %s", how, c.L, c.N, c.Pat, c.Chunks, output),
@@ -541,5 +542,67 @@ func TestC01(t *testing.T) {
 	if parent {
 		rep.Set("cases", len(cases))
 		rep.Sample(map[string]interface{}{"first_case": cases[0], "last_case": cases[len(cases)-1]})
+		c01repair(rep)
 	}
+}
+
+// c01repair: the store already holds a damaged copy of one blob of the content (the leftover of an upload that died while
+// writing it: empty, cut short, or altered). Storing the content again is acknowledged only if reading it back (through a
+// new file system object) then yields the original bytes. cafs detects an empty blob on every backend and any other
+// damage on backends that report a CRC32C (pkg/cafs/check_blob.go), so only those combinations are required to repair.
+func c01repair(rep *lib.Report) {
+	ctx := context.Background()
+	L := 64
+	n := 0
+	for _, size := range []int{1, L, L + 36, 3 * L, 3*L + 5} {
+		data := pattern("pos", size, L)
+		for _, crc := range []bool{true, false} {
+			base := lib.NewMemStore("blob")
+			base.NoCRC, base.NoJournal = !crc, true
+			res, err := newFs(base, L, 1, 0, 4).Put(ctx, bytes.NewReader(data))
+			if err != nil {
+				panic(err)
+			}
+			for _, k := range base.RawKeys() {
+				orig, _ := base.RawGet(k)
+				role := "leaf"
+				if strings.Contains(k, res.Key.String()) {
+					role = "root"
+				}
+				damages := map[string][]byte{"emptied": {}}
+				if crc {
+					damages["cut-short"] = orig[:len(orig)/2]
+					fl := append([]byte(nil), orig...)
+					fl[len(fl)/2] ^= 0x10
+					damages["altered"] = fl
+				}
+				for dname, d := range damages {
+					if bytes.Equal(d, orig) {
+						continue
+					}
+					st := base.Clone()
+					st.RawSet(k, d)
+					desc := fmt.Sprintf("n=%d crc=%v %s blob %s.. (%d bytes) %s, then Put again", size, crc, role, k[:8], len(orig), dname)
+					rp := map[string]interface{}{"n": size, "crc": crc, "blob": k, "damage": dname}
+					guard(rep, "C01|re-put-over-damaged-blob|"+role+"|"+dname, func() string { return desc }, rp, func() {
+						res2, perr := newFs(st, L, 2, 0, 4).Put(ctx, bytes.NewReader(data))
+						rep.Eval(1)
+						n++
+						if perr != nil {
+							return // not acknowledged
+						}
+						r, err := newFs(st, L, 1, 0, 4).Get(ctx, res2.Key)
+						var got []byte
+						if err == nil {
+							got, err = io.ReadAll(r)
+						}
+						if err != nil || !bytes.Equal(got, data) || res2.Key != res.Key {
+							rep.Violate(fmt.Sprintf("C01|re-put-over-damaged-blob|%s|%s|crc=%v|acknowledged-but-unreadable", role, dname, crc), fmt.Sprintf("%s: Put returned nil (key %s), reading back through a new file system object gives %d bytes, err=%v", desc, res2.Key, len(got), err), rp)
+						}
+					})
+				}
+			}
+		}
+	}
+	rep.Set("re_puts_over_a_damaged_blob", n)
 }
